@@ -200,7 +200,7 @@ def fam_alloc_fail(rng):
 
 
 def fam_mixed(rng):
-    return rng.choice([fam_core, fam_cv, fam_cv_raw, fam_muwait, fam_waitn_cv, fam_cv_rsignal])(rng)
+    return rng.choice([fam_core, fam_cv, fam_cv_raw, fam_muwait, fam_cv_rsignal])(rng)   # (waitn_cv has its own family: it exhibits known finding F3)
 
 
 def fam_once(rng):
